@@ -98,3 +98,24 @@ M('radix:iterator-skips-leaf-entry-15', ['C09'], 'rcu_radixtree.hpp', "				while
 M('radix:dtor-skips-values', ['C16'], 'rcu_radixtree.hpp', "					p->~T();\n", "					if(idx != 3) p->~T();\n")
 M('radix:dtor-leaks-inner-node', ['C16'], 'rcu_radixtree.hpp', "				if(!tn) {\n					tn = cn->parent;\n					frg::destruct(_allocator, cn);\n				}", "				if(!tn) {\n					tn = cn->parent;\n					if(cn->depth != 14) frg::destruct(_allocator, cn);\n				}")
 M('radix:common-prefix-one-short', ['C09'], 'rcu_radixtree.hpp', "				while(pfx_of(k, d + 1) == pfx_of(s->prefix, d + 1))\n					d++;", "				while(pfx_of(k, d + 1) == pfx_of(s->prefix, d + 1))\n					d++;\n				if(d == 12) d = 11;")
+
+# ---------------------------------------------------------------- C01-C04 slab pool
+M('slab:overhead-off-by-one-item', ['C01'], 'slab.hpp', "	while(overhead < sizeof(slab_frame)) // FIXME.\n		overhead += item_size;", "	while(overhead + item_size < sizeof(slab_frame)) // FIXME.\n		overhead += item_size;")
+M('slab:head_slb-not-updated-when-full', ['C01', 'C02'], 'slab.hpp', "			if(!slb->available) {\n				bkt->partial_tree.remove(slb);\n				bkt->head_slb = bkt->partial_tree.first();\n			}\n		}else{", "			if(!slb->available) {\n				bkt->partial_tree.remove(slb);\n				if(!bkt->partial_tree.first()) bkt->head_slb = nullptr;\n			}\n		}else{")
+M('slab:free-does-not-reinsert-full-slab', ['C02'], 'slab.hpp', "			if(reinsert_into_bucket) {\n				bkt->partial_tree.insert(slb);", "			if(reinsert_into_bucket && slb->index != 2) {\n				bkt->partial_tree.insert(slb);")
+M('slab:large-unmap-skipped', ['C03'], 'slab.hpp', "		_plcy.unmap(sb_base, sb_reservation);\n	}", "		if(obj_size != 3 * page_size) _plcy.unmap(sb_base, sb_reservation);\n	}")
+M('slab:large-unmap-wrong-length', ['C03'], 'slab.hpp', "		sb_reservation = area_size + huge_padding + sb_size;\n		sb_base = _plcy.map(area_size + huge_padding + sb_size);", "		sb_reservation = area_size + huge_padding;\n		sb_base = _plcy.map(area_size + huge_padding + sb_size);")
+M('slab:usedpages-drift-on-large-free', ['C03'], 'slab.hpp', "			_usedPages -= (sup->length + huge_padding) / page_size;", "			_usedPages -= sup->length / page_size;")
+M('slab:alloc-unpoisons-one-short', ['C03'], 'slab.hpp', "			_plcy.poison(object, sizeof(freelist));\n			_plcy.unpoison(object, length);", "			_plcy.poison(object, sizeof(freelist));\n			_plcy.unpoison(object, length > 24 ? length - 1 : length);")
+M('slab:free-leaves-tail-unpoisoned', ['C03'], 'slab.hpp', "			_plcy.unpoison_expand(p, item_size);\n			_plcy.poison(p, item_size);\n			_plcy.unpoison(p, sizeof(freelist));\n		}\n		auto object = new (p) freelist;", "			_plcy.unpoison_expand(p, item_size);\n			_plcy.poison(p, item_size / 2 > sizeof(freelist) ? item_size / 2 : item_size);\n			_plcy.unpoison(p, sizeof(freelist));\n		}\n		auto object = new (p) freelist;")
+M('slab:realloc-copies-without-unpoison', ['C03'], 'slab.hpp', "	if constexpr (has_poisoning)\n		_plcy.unpoison_expand(p, current_size);\n	memcpy(new_p, p, current_size);", "	memcpy(new_p, p, current_size);")
+M('slab:realloc-inplace-threshold', ['C01', 'C02'], 'slab.hpp', "		if(new_size > item_size)\n			return false;", "		if(new_size > item_size + 8)\n			return false;")
+M('slab:realloc-copies-too-little', ['C02'], 'slab.hpp', "	memcpy(new_p, p, current_size);", "	memcpy(new_p, p, current_size > 64 ? current_size - 8 : current_size);")
+M('slab:realloc-forgets-free', ['C02', 'C03'], 'slab.hpp', "	memcpy(new_p, p, current_size);\n	free(p);\n	return new_p;", "	memcpy(new_p, p, current_size);\n	if(current_size != 256) free(p);\n	return new_p;")
+M('slab:realloc-zero-returns-p', ['C02'], 'slab.hpp', "	}else if(!new_size) {\n		free(p);\n		return nullptr;\n	}", "	}else if(!new_size) {\n		free(p);\n		return p;\n	}")
+M('slab:map-failure-slab-keeps-lock', ['C04'], 'slab.hpp', "			// Call into the Policy without holding locks.\n			bucket_guard.unlock();\n\n			auto slb = _construct_slab(index);\n			if(!slb)\n				return nullptr;", "			// Call into the Policy without holding locks.\n			bucket_guard.unlock();\n\n			auto slb = _construct_slab(index);\n			if(!slb) {\n				bucket_guard.lock();\n				bucket_guard = unique_lock<Mutex>();\n				return nullptr;\n			}")
+M('slab:map-failure-large-unchecked', ['C04'], 'slab.hpp', "		sb_base = _plcy.map(area_size + huge_padding + sb_size);\n		if(!sb_base)\n			return nullptr;", "		sb_base = _plcy.map(area_size + huge_padding + sb_size);\n		if(!sb_base && area_size > 8 * page_size)\n			return nullptr;")
+M('slab:realloc-failure-frees-source', ['C04'], 'slab.hpp', "	void *new_p = allocate(new_size);\n	if(!new_p)\n		return nullptr;", "	void *new_p = allocate(new_size);\n	if(!new_p) {\n		free(p);\n		return nullptr;\n	}")
+M('slab:policy-map-under-bucket-lock', ['C05', 'C01'], 'slab.hpp', "			// Call into the Policy without holding locks.\n			bucket_guard.unlock();\n\n			auto slb = _construct_slab(index);", "			auto slb = _construct_slab(index);\n			bucket_guard.unlock();")
+M('slab:large-address-not-padded', ['C01'], 'slab.hpp', "	auto fra = new ((void *)address) frame(frame_type::large,\n			address + huge_padding, area_size);", "	auto fra = new ((void *)address) frame(frame_type::large,\n			address + (area_size == 2 * page_size ? 64 : huge_padding), area_size);")
+M('slab:area-size-rounds-down', ['C01'], 'slab.hpp', "		auto area_size = (length + page_size - 1) & ~(page_size - 1);", "		auto area_size = (length + page_size - 2) & ~(page_size - 1);")
